@@ -376,6 +376,90 @@ mut('c20_sym_grad', 'C20', 'skfem/autodiff/helpers.py',
     "def sym_grad(u):\n    return .5 * (u.grad + transpose(u.grad))\n",
     "def sym_grad(u):\n    return .5 * (u.grad + u.grad)\n", 'JAX symmetric gradient is the plain gradient')
 
+# ================================================================ batch 2
+# subtler edits that only show on irregular input (unsorted subsets, per-cell point arrays,
+# rarely used orders, 3-D-only paths) -- the region the properties quantify over
+mut('c02_affine_detdf_sorted', 'C02', 'skfem/mapping/mapping_affine.py',
+    "            detDF = self.detA[tind]\n", "            detDF = self.detA[np.sort(tind)]\n",
+    'affine determinants picked in sorted order: wrong dx for unsorted cell subsets')
+mut('c02_facet_detb_sorted', 'C02', 'skfem/mapping/mapping_affine.py',
+    "            detDG = self.detB[find]\n", "            detDG = self.detB[np.sort(find)]\n",
+    'facet measures picked in sorted order: wrong dx for unsorted facet subsets')
+mut('c08_tri_rule13_node', 'C08', 'skfem/quadrature.py',
+    "                            0.333333333333333,\n                            0.495048184939704,\n",
+    "                            0.333333333333333,\n                            0.495048184939714,\n",
+    'one node of the order-13 triangle rule perturbed in the 14th digit')
+mut('c03_hcurl2d_percell_orient', 'C03', 'skfem/element/element_hcurl.py',
+    "                    value=np.einsum('ijkl,ikl,k->jkl', invDF, phi, orient),\n                    curl=dphi / detDF * orient[:, None],\n",
+    "                    value=np.einsum('ijkl,ikl,k->jkl', invDF, phi, 0 * orient + 1),\n                    curl=dphi / detDF * orient[:, None],\n",
+    '2-D H(curl) values lose their orientation sign on per-cell points (all facet bases)')
+mut('c09_hcurl2d_percell_curl', 'C09', 'skfem/element/element_hcurl.py',
+    "                    curl=dphi / detDF * orient[:, None],\n                ),)\n        raise NotImplementedError\n",
+    "                    curl=dphi / np.abs(detDF) * orient[:, None],\n                ),)\n        raise NotImplementedError\n",
+    '2-D curl on per-cell points scaled by |det| (mirrored cells, facet bases)')
+mut('c09_matrix_percell', 'C09', 'skfem/element/element_matrix.py',
+    "                value=np.einsum('ijkl,jakl,bakl,kl->ibkl', DF, phi, DF,\n",
+    "                value=np.einsum('ijkl,jakl,abkl,kl->ibkl', DF, phi, DF,\n",
+    'matrix Piola map on per-cell points uses DF^T on the right')
+mut('c04_vector_doflocs', 'C04', 'skfem/element/element_vector.py',
+    "                elem.doflocs[int(np.floor(float(i) / float(self.dim)))]\n",
+    "                elem.doflocs[i % elem.doflocs.shape[0]]\n",
+    'DOF locations of vector elements cycled instead of repeated')
+mut('c05_condense_eig_T', 'C05', 'skfem/utils.py',
+    "            bout = b[I][:, I]\n", "            bout = b[I][:, I].T.tocsr()\n",
+    'condensed mass matrix transposed (unsymmetric right-hand-side matrices only)')
+mut('c05_mpc_g_sign', 'C05', 'skfem/utils.py',
+    "                        b[M] - A[M][:, S] @ g))\n", "                        b[M] + A[M][:, S] @ g))\n",
+    'inhomogeneous multipoint constraints: wrong sign in the master rows')
+mut('c10_affine_G_sorted', 'C10', 'skfem/mapping/mapping_affine.py',
+    "            B, c = self.B[:, :, find], self.c[:, find]\n",
+    "            B, c = self.B[:, :, find], self.c[:, np.sort(find)]\n",
+    'facet map offsets picked in sorted order (unsorted facet subsets)')
+mut('c10_affine_DF_percell', 'C10', 'skfem/mapping/mapping_affine.py',
+    "            return np.einsum('ijk,kl->ijkl', DF, 1 + np.zeros_like(X[0]))\n",
+    "            return np.einsum('jik,kl->ijkl', DF, 1 + np.zeros_like(X[0]))\n",
+    'affine Jacobian transposed for per-cell point arrays')
+mut('c11_interior_nodes_from1', 'C11', 'skfem/mesh/mesh.py',
+    "        return np.setdiff1d(np.arange(0, self.p.shape[1]),\n",
+    "        return np.setdiff1d(np.arange(1, self.p.shape[1]),\n",
+    'vertex 0 is never reported interior (a corner in every built-in mesh)')
+mut('c11_boundary_edges_hexdiag', 'C11', 'skfem/mesh/mesh_3d.py',
+    "                              self.facets[(itr + 1) % self.facets.shape[0],\n",
+    "                              self.facets[(itr + 2) % self.facets.shape[0],\n",
+    'boundary edges from vertex pairs two apart (same set for triangles, diagonals for quads)')
+mut('c13_blue2_submap', 'C13', 'skfem/mesh/mesh_tri_1.py',
+    "            new_t[:3, blue2] = np.arange(offset,\n                                         offset + 3 * nblue2,\n                                         dtype=np.int32).reshape(3, -1)\n",
+    "            new_t[:3, blue2] = np.arange(offset,\n                                         offset + 3 * nblue2,\n                                         dtype=np.int32).reshape(-1, 3).T\n",
+    'children of blue-2 cells attributed to the wrong parents when several exist')
+mut('c19_bmat_sizes', 'C19', 'skfem/utils.py',
+    "                diff += sizes[-1]\n", "                diff = sizes[-1]\n",
+    'block offsets of bmat wrong from the third block column on')
+mut('c20_dddot', 'C20', 'skfem/helpers.py',
+    "    return np.einsum('ijk...,ijk...', u, v)\n", "    return np.einsum('ijk...,ikj...', u, v)\n",
+    'triple dot product contracts transposed indices')
+mut('c20_curl3_helper', 'C20', 'skfem/helpers.py',
+    "                u.grad[0, 2] - u.grad[2, 0],\n", "                u.grad[2, 0] - u.grad[0, 2],\n",
+    'second component of the 3-D curl helper negated')
+mut('c06_project_kw_facets', 'C06', 'skfem/assembly/basis/facet_basis.py',
+    "        if facets is not None:\n            return solve(*condense(M, f, I=self.get_dofs(facets=facets)))\n",
+    "        if facets is not None:\n            return solve(*condense(M, f, D=self.get_dofs(facets=facets)))\n",
+    'keyword facet projection condenses the complement')
+mut('c07_nodes_selector', 'C07', 'skfem/assembly/dofs.py',
+    "            self,\n            nodes,\n            np.empty((0,), dtype=np.int32),\n",
+    "            self,\n            nodes[:-1] if len(nodes) > 2 else nodes,\n            np.empty((0,), dtype=np.int32),\n",
+    'vertex query drops the last of three or more vertices')
+mut('c14_finder_candidates', 'C14', 'skfem/mesh/mesh_tri_1.py',
+    "            return np.array([ix[inside.argmax(axis=0)]]).flatten()\n\n        return finder\n",
+    "            return np.array([ix[inside.argmax(axis=0)]]).flatten() if not _search_all else np.array([inside.argmax(axis=0)]).flatten() * 0\n\n        return finder\n",
+    'fallback search returns cell 0 (only reached when the nearest centroids miss)')
+
+mut('c10_iso_normal_1norm', 'C10', 'skfem/mapping/mapping_isoparametric.py',
+    "        nlength = np.sqrt(np.sum(n ** 2, axis=0))\n", "        nlength = np.sum(np.abs(n), axis=0)\n",
+    'isoparametric normals normalised in the 1-norm (unit only on axis-parallel facets)')
+mut('c10_iso_invF_start', 'C10', 'skfem/mapping/mapping_isoparametric.py',
+    "            X = np.clip(X + dX, 0., 1.)\n", "            X = np.clip(X + dX, 0., 1. - 1e-6)\n",
+    'Newton inverse clipped slightly inside the reference cell (points on far facets)')
+
 
 def check():
     ok = True
@@ -431,7 +515,32 @@ def run(ids):
             json.dump(res, open(OUT, 'w'), indent=1)
 
 
+def probe(mid, script):
+    """run a probe script against a scratch copy carrying one mutant"""
+    m = [x for x in M if x['id'] == mid][0]
+    d = tempfile.mkdtemp(prefix='vf-mut-', dir='/var/tmp')
+    try:
+        dst = os.path.join(d, 'repo')
+        shutil.copytree(REPO, dst, ignore=shutil.ignore_patterns('.git', '__pycache__', '.benchmarks', 'docs'))
+        f = os.path.join(dst, m['path'])
+        src = open(f).read().replace(m['old'], m['new'], 1)
+        for o, n in m.get('extra', []):
+            src = src.replace(o, n, 1)
+        open(f, 'w').write(src)
+        env = dict(os.environ, PYTHONPATH=dst + ':' + os.path.dirname(os.path.abspath(script)),
+                   PYTHONDONTWRITEBYTECODE='1')
+        r = subprocess.run(['/venv/bin/python', script], cwd=d, env=env, capture_output=True, text=True)
+        out = [l for l in (r.stdout + r.stderr).splitlines() if 'Warning' not in l]
+        print('--- mutant', mid, '| probe', os.path.basename(script))
+        print('\n'.join(out[-12:]))
+    finally:
+        shutil.rmtree(d, ignore_errors=True)
+
+
 if __name__ == '__main__':
     if sys.argv[1] == 'check':
         sys.exit(0 if check() else 1)
+    if sys.argv[1] == 'probe':
+        probe(sys.argv[2], sys.argv[3])
+        sys.exit(0)
     run(sys.argv[2:])
